@@ -29,6 +29,7 @@ import (
 	"net/http/httptest"
 	"os"
 	"path/filepath"
+	"sort"
 	"strings"
 	"time"
 
@@ -63,6 +64,11 @@ type Case struct {
 	N2     int     `json:"n2"`     // deposits recorded by the L2 bridge store
 	Blocks []Block `json:"blocks"` // L1 history
 	Every  bool    `json:"every"`  // snapshot after every L1 block (else after the last one only)
+	// A reorg of the L1 while the service keeps running (specs/BridgeAPIReorg.tla): first the history Old is recorded, then
+	// both L1 stores forget every block after the first Kept ones (the real Reorg of both processors, and of the injected-GER
+	// store for the leaves that are gone), then the blocks of Blocks after the first Kept ones follow - with other deposits.
+	Old  []Block `json:"old"`
+	Kept int     `json:"kept"`
 }
 
 // ---------------------------------------------------------------------------------------------- run
@@ -116,6 +122,14 @@ type node struct {
 	nL2    int
 	infos  []infoRec
 	gerBlk uint64
+	injBlk map[int]uint64 // info leaf index -> L2 block that recorded its GER as injected
+	base   int            // atom offset of the deposits of the current fork
+	fed    []fedBlock
+}
+
+type fedBlock struct {
+	b    Block
+	base int
 }
 
 type infoRec struct {
@@ -131,7 +145,7 @@ func one(w *tr.W, root string, seed int64, idx int, c Case) error {
 		return err
 	}
 	defer os.RemoveAll(dir)
-	n := &node{seed: seed, ours: uint32(c.Ours), rng: rand.New(rand.NewSource(seed)), ucur: map[int]common.Hash{}}
+	n := &node{seed: seed, ours: uint32(c.Ours), rng: rand.New(rand.NewSource(seed)), ucur: map[int]common.Hash{}, injBlk: map[int]uint64{}}
 	n.dictA, n.dictU = names.NewDict(), names.NewDict()
 	n.refL1, n.refL2, n.uref = names.NewAppendTree(n.dictA), names.NewAppendTree(n.dictA), names.NewUpdTree(n.dictU)
 	if n.bL1, err = bridgesync.NewVerifBridgeSync(filepath.Join(dir, "bridgel1.sqlite"), "verif_bridge_l1", 0); err != nil {
@@ -165,14 +179,80 @@ func one(w *tr.W, root string, seed int64, idx int, c Case) error {
 		w.Emit(tr.M{"ev": "snap", "s": n.snapshot()})
 		return nil
 	}
-	for bi, b := range c.Blocks {
-		if err := n.feedL1(w, b); err != nil {
+	rest := c.Blocks
+	if len(c.Old) > 0 {
+		if c.Kept < 0 || c.Kept >= len(c.Old) || c.Kept > len(c.Blocks) {
+			return fmt.Errorf("reorg case: kept=%d with %d old and %d new blocks", c.Kept, len(c.Old), len(c.Blocks))
+		}
+		for _, b := range c.Old {
+			if err := n.feedL1(w, b, false); err != nil {
+				return err
+			}
+			w.Emit(tr.M{"ev": "snap", "s": n.snapshot()})
+		}
+		if err := n.reorgL1(w, c.Old[c.Kept].Num, c.Kept); err != nil {
 			return err
 		}
-		if c.Every || bi == len(c.Blocks)-1 {
+		w.Emit(tr.M{"ev": "snap", "s": n.snapshot()})
+		rest = c.Blocks[c.Kept:]
+	}
+	for bi, b := range rest {
+		if err := n.feedL1(w, b, false); err != nil {
+			return err
+		}
+		if c.Every || len(c.Old) > 0 || bi == len(rest)-1 {
 			w.Emit(tr.M{"ev": "snap", "s": n.snapshot()})
 		}
 	}
+	return nil
+}
+
+// reorgL1: the L1 blocks >= from are gone. Both L1 stores are told so (the driver's handleReorg calls Reorg on each
+// processor); the GERs of the leaves that no longer exist are no longer injected on the L2 (that store is reorged from the
+// block that recorded the first of them). The reference is rebuilt from the surviving blocks.
+func (n *node) reorgL1(w *tr.W, from uint64, kept int) error {
+	ctx := context.Background()
+	if err := n.bL1.VerifReorg(ctx, from); err != nil {
+		return fmt.Errorf("L1 bridge store Reorg(%d): %w", from, err)
+	}
+	if err := n.info.VerifReorg(ctx, from); err != nil {
+		return fmt.Errorf("L1 info store Reorg(%d): %w", from, err)
+	}
+	survivors := n.fed[:kept]
+	n.refL1, n.uref = names.NewAppendTree(n.dictA), names.NewUpdTree(n.dictU)
+	n.ucur, n.nL1, n.infos, n.fed = map[int]common.Hash{}, 0, nil, nil
+	for _, f := range survivors {
+		n.base = f.base
+		if err := n.feedL1(nil, f.b, true); err != nil {
+			return err
+		}
+	}
+	var first uint64
+	for i, blk := range n.injBlk {
+		if i >= len(n.infos) {
+			if first == 0 || blk < first {
+				first = blk
+			}
+			delete(n.injBlk, i)
+		}
+	}
+	if first > 0 {
+		if err := n.gers.VerifReorg(ctx, first); err != nil {
+			return fmt.Errorf("injected GER store Reorg(%d): %w", first, err)
+		}
+		for i, blk := range n.injBlk { // later L2 blocks went with it: the GERs they recorded (of surviving leaves) are not injected any more
+			if blk >= first {
+				delete(n.injBlk, i)
+			}
+		}
+	}
+	still := []int{}
+	for i := range n.injBlk {
+		still = append(still, i)
+	}
+	sort.Ints(still)
+	n.base += 100
+	w.Emit(tr.M{"ev": "reorg", "from": from, "inj": still})
 	return nil
 }
 
@@ -275,8 +355,9 @@ func (n *node) exitRoot(r, k int) (common.Hash, error) {
 }
 
 // feedL1 builds the L1 block for both L1 stores from the joint history and processes it with the real ProcessBlock.
-func (n *node) feedL1(w *tr.W, b Block) error {
+func (n *node) feedL1(w *tr.W, b Block, dry bool) error {
 	ctx := context.Background()
+	n.fed = append(n.fed, fedBlock{b, n.base})
 	hash := n.blockHash("l1", b.Num)
 	bb := aggsync.Block{Num: b.Num, Hash: hash}
 	ib := aggsync.Block{Num: b.Num, Hash: hash}
@@ -285,7 +366,7 @@ func (n *node) feedL1(w *tr.W, b Block) error {
 	for p, e := range b.Evs {
 		switch e.T {
 		case "dep":
-			x := n.nL1 + 1
+			x := n.base + n.nL1 + 1
 			d := *n.deposit(x)
 			d.BlockNum, d.BlockPos, d.DepositCount = b.Num, uint64(p), uint32(n.nL1)
 			bb.Events = append(bb.Events, bridgesync.Event{Bridge: &d})
@@ -316,6 +397,9 @@ func (n *node) feedL1(w *tr.W, b Block) error {
 			return fmt.Errorf("unknown event %q", e.T)
 		}
 	}
+	if dry { // the reference only: the stores already hold this block
+		return nil
+	}
 	if err := n.bL1.VerifProcessBlock(ctx, bb); err != nil {
 		return fmt.Errorf("L1 bridge store ProcessBlock(%d): %w", b.Num, err)
 	}
@@ -335,6 +419,7 @@ func (n *node) feedL1(w *tr.W, b Block) error {
 				return fmt.Errorf("injected GER store ProcessBlock(%d): %w", n.gerBlk, err)
 			}
 			inj = append(inj, i)
+			n.injBlk[i] = n.gerBlk
 		}
 	}
 	if len(inj) > 0 {
